@@ -687,8 +687,9 @@ struct Catalogue {
 	bool thorough;
 	std::vector<std::string> specials;     // target-specific interesting values (p, q, p-1 ... in the wire encoding)
 	size_t byte_limit;                      // inputs up to this size get the byte-level catalogue at every offset
+	size_t field_limit;                     // mutate only the first field_limit flat fields (0 = all)
 	size_t pair_window, pair_max_fields;    // two fields i < j <= i + pair_window set to {0, special 0, negated} each (inputs with <= pair_max_fields fields)
-	Catalogue() : thorough(false), byte_limit(0), pair_window(0), pair_max_fields(0) {}
+	Catalogue() : thorough(false), byte_limit(0), field_limit(0), pair_window(0), pair_max_fields(0) {}
 
 	static std::string big(size_t bits)
 	{
@@ -775,6 +776,7 @@ struct Catalogue {
 			const char *gn = g == 0 ? "f" : (g == 1 ? "g" : "l");
 			for (size_t i = 0; i < F.size(); i++)
 			{
+				if (field_limit && (g > 0 || i >= field_limit)) break;
 				const Field &x = F[i];
 				size_t beg = x.beg, fend = x.beg + x.len, end = fend + (x.delim ? 1 : 0);
 				std::string fid = std::string(gn) + drv::str(i);
